@@ -54,7 +54,10 @@ func (l *Lexer) readChar() {
 		l.prevCharNumber = 0
 		l.prevUtf8CharNumber = 0
 		l.charNumber = charSize
-		l.utf8CharNumber = 1
+		l.utf8CharNumber = 0
+		if charSize > 0 {
+			l.utf8CharNumber = 1
+		}
 	}
 }
 
